@@ -25,6 +25,8 @@ CLAUSE = CLAUSE + (" Every advance of the PES collecting cursor ts_pes_bp is pai
 CLAUSE = CLAUSE + (" (bit provenance) every PTS bit is stored by encode_timestamp at exactly the (byte, bit) decode_timestamp takes it from (formerly: same shift per byte, same mask on byte "
                    "0); last_line follows only lines with a known position (s->line > 0).")
 CLAUSE = CLAUSE + (" The demultiplexer's own frame buffer takes every line address a frame can carry (line_offset mask x field parity).")
+CLAUSE = CLAUSE + (" A refused vbi_dvb_mux_set_data_identifier() call has stored nothing through mx; the demultiplexer's line-order state "
+                   "(last_frame_line) is only ever reset or set to the number of a transmitted line.")
 NOT_DECIDED = ("PES/TS header layout, PTS encoding, size rounding to 184 and stuffing arithmetic, that demux (mux (x)) == x as values, "
                "conformance to EN 300 472 / EN 301 775 beyond the table.")
 
@@ -80,6 +82,8 @@ def run(ctx, run):
     _frame_capacity(ctx, run)
     _header_lookahead(ctx, run)
     _rejection_traceless(ctx, run, P.need("vbi_dvb_mux_feed", MUX))
+    _refused_setter_traceless(ctx, run)
+    _line_order_state(ctx, run)
     _second_field_offset(ctx, run, P.need("samples_pointer", MUX))
     _timestamp_layout(ctx, run)
     _last_line_under_positive(ctx, run, fm)
@@ -778,3 +782,71 @@ def _last_line_under_positive(ctx, run, f):
                               "the next line-0 Teletext unit after second-field lines gets field_parity = 1 (first field) and the "
                               "ascending-order test forgets the lines before it" % ex.pretty(f, i)[:40], ex.loc(f, i))
     run.floor("updates of last_line from a sliced line", n, 1)
+
+
+def _refused_setter_traceless(ctx, run):
+    """vbi_dvb_mux_set_data_identifier() refuses identifiers outside the two standardised ranges and returns FALSE: a
+    refused call must not have changed the multiplexer (RF-NOWRITE: no FALSE exit is reachable after a store through mx).
+    Otherwise the next packet is built from a half-applied setting - e.g. data units of variable length under an
+    identifier that demands the fixed length."""
+    from .. import nowrite
+    P = ctx.prog
+    n = 0
+    for name in ("vbi_dvb_mux_set_data_identifier",):
+        f = P.need(name, MUX)
+        run.touch(f)
+        outs = {f.params[0]["name"]}
+        viol, n_false, n_out, sp = nowrite.check(ctx, f, outs)
+        for u in sp.unknown:
+            raise AnalysisBroken("%s: %s" % (name, u[1]))
+        n += n_false
+        key = "RF-NOWRITE:%s:refusal-traceless" % name
+        if viol:
+            first = sp.writes[0] if sp.writes else None
+            ret = viol[0][0]
+            line = f.exprs[ret]["line"] if ret is not None and ret >= 0 else f.endline
+            run.violation("RF-NOWRITE", key, "a path reaches the refusing exit (line %d) after the multiplexer was already modified "
+                          "(first write: %s, line %s): a refused identifier leaves a half-applied setting behind, the next packets "
+                          "are built under the old identifier with the new one's data unit format"
+                          % (line, first[1] if first else "?", f.exprs[first[0]]["line"] if first else "?"),
+                          "%s:%d" % (f.file, line), witness={"function": name})
+        else:
+            run.holds("RF-NOWRITE", key, "%d exit outcome(s), %d refusing; none of them is reachable after a store through %s"
+                      % (n_out, n_false, "/".join(sorted(outs))), "%s:%d" % (f.file, f.line), nontrivial=n_false > 0)
+    run.floor("refusing exits of the data_identifier setter", n, 1)
+
+
+def _line_order_state(ctx, run):
+    """The demultiplexer checks the ascending line order of a frame against frame.last_frame_line.  EN 301 775 lets
+    Teletext data units carry line_offset 0 ("line unknown") between numbered lines; they take no line number, so the
+    order state must only ever be reset (0) or set to the number of a line that was transmitted (a plain copy of the
+    decoded frame line) - never counted up.  Otherwise `7, 0, 0, 9` collides with line 9 and the frame is cut short."""
+    P = ctx.prog
+    n = 0
+    for f in P.funcs:
+        if f.file != DEMUX:
+            continue
+        for bid, i in flow.all_events(f):
+            for lhs, var, op, rhs in flow.stores(f, i):
+                if lhs is None:
+                    continue
+                l = f.exprs[ex.skip(f, lhs)]
+                if not (l["k"] == "mem" and l["member"] == "last_frame_line"):
+                    continue
+                run.touch(f)
+                n += 1
+                key = "RF-WHO:%s:last_frame_line@%d" % (f.name, n)
+                ok = False
+                if op == "=" and rhs is not None:
+                    r = f.exprs[ex.skip(f, rhs)]
+                    while r["k"] == "cast" and r.get("c"):
+                        r = f.exprs[ex.skip(f, r["c"][0])]
+                    ok = ex.const(f, rhs) == 0 or (r["k"] == "ref" and r.get("dk") in ("local", "param"))
+                if ok:
+                    run.holds("RF-WHO", key, "`%s` resets the line-order state or sets it to a decoded line number" % ex.pretty(f, i)[:60], ex.loc(f, i))
+                else:
+                    run.violation("RF-WHO", key, "`%s` advances the line-order state by something that is not the number of a transmitted "
+                                  "line: data units with line_offset 0 (line unknown) then collide with the numbered lines that follow "
+                                  "and the frame is refused as out of order" % ex.pretty(f, i)[:60], ex.loc(f, i),
+                                  witness={"function": f.name, "store": ex.pretty(f, i)})
+    run.floor("stores to the demultiplexer's line-order state", n, 2)
